@@ -104,10 +104,19 @@ func NewReverseSuffixSearcher(
 	if bytes.IndexByte(suffixBytes, '\n') >= 0 {
 		matchStartZero = false
 	}
+	// The fast path also takes the last common suffix on the line as the match end
+	// without verification. With several suffix literals (`.*(afoo|bfoo)`) the common
+	// suffix "foo" is only part of the tail, so "xfoo" must not be accepted.
+	if suffixLiterals.Len() != 1 {
+		matchStartZero = false
+	}
 	suffixLen := len(suffixBytes)
 
-	// Build prefilter from suffix literals
-	builder := prefilter.NewBuilder(nil, suffixLiterals)
+	// Build the prefilter from the common suffix itself, not from the full suffix
+	// literals: every candidate position is combined with suffixLen and suffixBytes,
+	// so it has to be the START of the common suffix. A prefilter over "afoo"/"bfoo"
+	// reports the start of the longer literal and pos+suffixLen ends one byte short.
+	builder := prefilter.NewBuilder(nil, literal.NewSeq(literal.NewLiteral(suffixBytes, false)))
 	pre := builder.Build()
 	if pre == nil {
 		// No prefilter available - cannot use this optimization
